@@ -246,11 +246,24 @@ def derived_equal(o1, o2):
         if list(d1.columns) != list(d2.columns) or list(d1.index) != list(d2.index):
             return f'snapshot at {t1!r}: different columns / rows'
         for c_ in d1.columns:
+            # the scale of a column: the largest magnitude the variable takes anywhere in the two recorded histories, in the column's unit
+            # (an interpolated value between +a and -a can be anything small); the duty cycle is a pure number of scale 1
+            var = c_.split(' (')[0]
+            scale = 1.0 if var == 'pwm' else 0.0
+            if var != 'pwm':
+                unit = c_.split(' (')[1].rstrip(')')
+                for els_ in (els1, els2):
+                    for e_ in els_:
+                        for smp in e_.time_variables.get(var, []):
+                            try:
+                                scale = max(scale, abs(float(smp.to(unit).value)))
+                            except Exception:  # noqa
+                                pass
             for r_ in d1.index:
                 x, y = d1.loc[r_, c_], d2.loc[r_, c_]
                 if isinstance(x, (int, float)) and isinstance(y, (int, float)):
-                    if (x != x) != (y != y) or (x == x and not O.close(float(x), float(y), 1e-9 * max(abs(float(d1[c_].abs().max() or 0)), 1e-300), 1e-6)):
-                        return f'snapshot at {t1!r}: {r_} {c_}: {x!r} vs {y!r}'
+                    if (x != x) != (y != y) or (x == x and not O.close(float(x), float(y), 1e-9 * max(scale, 1e-300), 1e-6)):
+                        return f'snapshot at {t1!r}: {r_} {c_}: {x!r} vs {y!r} (scale of the variable in the run {scale!r})'
     return None
 
 
